@@ -116,6 +116,19 @@ func (e *Exec) intrinsic(fn *ssa.Function, name string, args []Value) (Value, bo
 		if a.IsC && b.IsC {
 			return mkFloat(math.Mod(a.C, b.C)), true
 		}
+		if e.relaxed && !e.opaque {
+			// integer-valued dividend (dyadic provenance, scale 0) and a positive integer constant divisor:
+			// fmod is exact and keeps the sign of the dividend
+			if ka := intROf(a); ka != "" && b.IsC && b.C > 0 && b.C == math.Trunc(b.C) && b.C < 1<<62 {
+				m := fmt.Sprint(int64(b.C))
+				k := "(ite (>= " + ka + " 0) (mod " + ka + " " + m + ") (- (mod (- " + ka + ") " + m + ")))"
+				n := e.fresh("rk")
+				e.declare(n, "Int")
+				e.sol.Send("(assert (= " + n + " " + k + "))")
+				e.stubs["math.Mod(k, m) for integer-valued k and positive integer constant m: exact truncated remainder"] = true
+				return Float{Sym: "(to_real " + n + ")", IntR: n}, true
+			}
+		}
 		var ai Int
 		switch {
 		case a.FromInt != nil:
